@@ -211,7 +211,7 @@ func (l *LookupEdgeAdjOut) Process(ctx context.Context, man gdbi.Manager, in gdb
 	go func() {
 		defer close(queryChan)
 		for t := range in {
-			if t.IsSignal() {
+			if t.IsSignal() || t.IsNull() {
 				queryChan <- gdbi.ElementLookup{Ref: t}
 			} else {
 				queryChan <- gdbi.ElementLookup{
@@ -290,7 +290,7 @@ func (l *LookupEdgeAdjIn) Process(ctx context.Context, man gdbi.Manager, in gdbi
 	go func() {
 		defer close(queryChan)
 		for t := range in {
-			if t.IsSignal() {
+			if t.IsSignal() || t.IsNull() {
 				queryChan <- gdbi.ElementLookup{Ref: t}
 			} else {
 				queryChan <- gdbi.ElementLookup{
